@@ -365,6 +365,8 @@ def run(rep: Report) -> None:
     rep.rule("R15.8", "the unit text a quantity is stored under resolves back to that unit: every prefix x unit spelling and every name resolves "
              "to itself or to an equal-valued unit (the symbol-table rule of C13, at the serialisation sites)", floor=1000)
     rep.rule("R15.7", "Dimension/Prefix decoders rebuild from the encoded structural key (exponents; base and exponent) on every path", floor=2)
+    rep.rule("R15.16", "MeasuredJSONDecoder hands parse_float / parse_int / parse_constant through unchanged (numbers decode as the encoder wrote them)", floor=3)
+    rep.rule("R15.15", "Unit.__json__ writes the unit's prefix and dimension as their own __json__() encodings (structural, not by name)", floor=2)
     rep.rule("R15.13", "the pydantic schema hands the wire form to the library's own decoder and encoder (__from_json__ / __json__) with "
              "no converting pydantic schema in between", floor=3)
     rep.rule("R15.6", "pickle/copy of a Quantity carry the Unit object itself (no custom reduce/copy hook routes it through text)", floor=1)
@@ -631,6 +633,37 @@ def run(rep: Report) -> None:
     rep.check("R15.6", "Quantity:pickle-carries-unit", okq, f"{why}: pickle/copy re-parse str(unit), so the unit comes back as another "
               "object (kg for Kilo*Gram) or fails to parse", f"{qc.path}:{qc.node.lineno}")
     rep.check("R15.6", "Quantity:slots", "__slots__" in qc.class_attrs or not hooks, "Quantity lost its __slots__ (default pickling relied on them)", f"{qc.path}:{qc.node.lineno}")
+    # R15.16: the decoder reads numbers the way the encoder writes them.  MeasuredJSONEncoder leaves numbers to the json module
+    # (ints, floats incl. Infinity / NaN as json writes them); a decoder that installs its own parse_float / parse_int /
+    # parse_constant - anything but handing the caller's argument through - changes the type or rejects what was written
+    dinit = prog.func("json.MeasuredJSONDecoder.__init__")
+    dparams = set(dinit.params())
+    sup_calls = [c for c in ast.walk(dinit.node) if isinstance(c, ast.Call) and isinstance(c.func, ast.Attribute) and c.func.attr == "__init__"]
+    for c in sup_calls:
+        for kw in c.keywords:
+            if kw.arg in ("parse_float", "parse_int", "parse_constant"):
+                plain = (isinstance(kw.value, ast.Name) and kw.value.id in dparams) or (isinstance(kw.value, ast.Constant) and kw.value.value is None)
+                rep.check("R15.16", f"MeasuredJSONDecoder.__init__:{kw.arg}", plain,
+                          f"MeasuredJSONDecoder passes `{kw.arg}={ast.unparse(kw.value)[:50]}` to the json decoder: numbers are no longer read back the way "
+                          "MeasuredJSONEncoder wrote them (a float('inf') magnitude is written as Infinity and then refused, or comes back as another type)",
+                          dinit.where(kw.value))
+    if not sup_calls:
+        rep.defer(AnalysisError("MeasuredJSONDecoder.__init__ no longer calls the json decoder's __init__ (R15.16 anchor moved)"))
+    # R15.15: a unit's prefix and dimension travel as their own structural encodings.  A name (or symbol) in their place
+    # cannot carry an anonymous prefix (Byte's 2**3, Kilo*Hecto) or an unnamed dimension: it decodes as the identity
+    ujw = written_dict(prog.func("Unit.__json__").node)
+    local_u = {n.targets[0].id: n.value for n in ast.walk(prog.func("Unit.__json__").node)
+               if isinstance(n, ast.Assign) and len(n.targets) == 1 and isinstance(n.targets[0], ast.Name)}
+    for fld in ("prefix", "dimension"):
+        v = ujw.get(fld)
+        k_ = 0
+        while isinstance(v, ast.Name) and v.id in local_u and k_ < 4:
+            v = local_u[v.id]
+            k_ += 1
+        structural = v is not None and any(isinstance(c, ast.Call) and isinstance(c.func, ast.Attribute) and c.func.attr == "__json__" for c in ast.walk(v))
+        rep.check("R15.15", f"Unit.__json__:{fld}", structural,
+                  f"Unit.__json__ writes `{ast.unparse(v)[:60] if v is not None else None}` under {fld!r}: not the {fld}'s own __json__() encoding, so a unit whose "
+                  f"{fld} has no name (byte carries 2**3; kilo*hecto) comes back with the identity {fld} - another unit", prog.func("Unit.__json__").where(v))
     # R15.13: the pydantic form is the JSON form - nothing of pydantic's own stands between the wire and __from_json__
     pydantic_schema(rep, prog)
     rep.not_decided += ["equality of decoded float magnitudes (json float repr round-trip is trusted)", "third-party pickle variants beyond the pickle protocol hooks"]
